@@ -24,7 +24,34 @@ CODES = {0: 'ok', 1: 'label used twice within a frame', 2: 'link longer than sea
 STRATS = ['recursive', 'nonrecursive', 'numba', 'hybrid', 'auto']
 
 
+def gen_crowded(rng):
+    """one destination with 8-10 candidate sources in range (the documented neighbour
+    cap is 10: still inside the property's quantifier), optionally some of them remembered"""
+    k = rng.choice([8, 9, 10, 10])
+    pts = set()
+    while len(pts) < k:
+        pts.add((rng.randint(-3, 3), rng.randint(-3, 3)))
+    pts = [list(p) for p in pts]
+    sr = Fraction(5)
+    mem = rng.choice([0, 1, 2])
+    far = [[40 + 9 * i, 40] for i in range(rng.randint(0, 2))]
+    frames = []
+    if mem and rng.random() < 0.7:
+        # some sources seen only in frame 0, absent in frame 1, all compete for frame-2 features
+        early = pts[:rng.randint(1, 4)]
+        frames.append(np.array(pts + far, dtype=float))
+        frames.append(np.array([p for p in pts if p not in early] + far, dtype=float).reshape(-1, 2))
+    else:
+        frames.append(np.array(pts + far, dtype=float))
+    dests = [[0, 0]] + [[rng.randint(-4, 4), rng.randint(-4, 4)] for _ in range(rng.randint(0, 2))]
+    dests = [list(x) for x in {tuple(d) for d in dests}]
+    frames.append(np.array(dests + far, dtype=float))
+    return dict(frames=frames, sr=sr, memory=mem, max_size=30, strategy=rng.choice(['recursive', 'nonrecursive']), ndim=2)
+
+
 def gen_case(rng, tier):
+    if rng.random() < 0.12:
+        return gen_crowded(rng)
     q = rng.random() < 0.5
     big = tier == 'thorough' and rng.random() < 0.3
     fr = linkgen.gen_movie(rng, quarter=q, nframes=rng.randint(2, 10 if big else 7))
@@ -157,6 +184,9 @@ def run(chk):
         chk.tally('strategy=' + c['strategy']); chk.tally('memory=%d' % c['memory'])
         if out and out[-1] is None:
             chk.tally('oversize raised')
+        mi = linkgen.max_inrange(c['frames'], c['sr'], c['memory'])
+        if mi >= 9:
+            chk.tally('feature with %d sources in range' % mi)
     res = common.coq_eval_lists(chk.work, IMPORTS, FUNC, terms)
     # coverage statistics from the model: subnet sizes
     for c, out, r in zip(cases, outs, res):
